@@ -54,6 +54,11 @@ def run_impl(case):
     from tornado import queues
     rig = Rig()
     q = getattr(queues, _CLS[case["cls"]])(maxsize=case["maxsize"])
+    # the model's history variables: every item passing `_put` (called by `__put_internal` only) / returned by `_get`
+    acc, dlv, done = [], [], [0]
+    orig_put, orig_get = q._put, q._get
+    q._put = lambda item: (acc.append(item), orig_put(item))[1]
+    q._get = lambda: (lambda y: (dlv.append(y), y)[1])(orig_get())
     ident = lambda r: r if isinstance(r, int) and not isinstance(r, bool) else 99
     none0 = lambda r: 0 if r is None else 99
     convs = []
@@ -79,6 +84,7 @@ def run_impl(case):
         elif k in ("taskDone", "raceTaskDone"):
             r, evs = rig.call(lambda: (q.task_done(), "U")[1], race=race)
             evs = sorted(evs, key=lambda e: e[0])
+            done[0] += (r == "U")
         elif k == "join":
             to = rig.timeout_arg(op[1], op[2] if len(op) > 2 else "rel")
             r, evs = rig.call(lambda to=to: track(q.join(to) if to is not None else q.join(), none0))
@@ -90,7 +96,8 @@ def run_impl(case):
             raise AssertionError(op)
         outs.append([r, evs, q.qsize(), len(q._getters), len(q._putters), q._unfinished_tasks,
                      len(q._finished._waiters), rig.ntimers(), q.empty(), q.full()])
-    return {"outs": outs, "states": [rig.state(i, convs[i]) for i in range(len(rig.futs))], "cberrors": rig.errors()}
+    return {"outs": outs, "states": [rig.state(i, convs[i]) for i in range(len(rig.futs))], "cberrors": rig.errors(),
+            "accepted": acc, "delivered": dlv, "done": done[0]}
 
 
 def model_requests(case, impl):
@@ -98,12 +105,12 @@ def model_requests(case, impl):
 
 
 def model_result(case, replies):
-    outs, states = reply_vals(replies[0])
-    return {"outs": outs, "states": states, "cberrors": []}
+    outs, states, acc, dlv, done = reply_vals(replies[0])
+    return {"outs": outs, "states": states, "cberrors": [], "accepted": acc, "delivered": dlv, "done": done}
 
 
 def impl_view(case, impl):
-    return {"outs": [o[:8] for o in impl["outs"]], "states": impl["states"], "cberrors": impl["cberrors"]}
+    return {**impl, "outs": [o[:8] for o in impl["outs"]]}
 
 
 def spec_requests(case, impl):
